@@ -104,7 +104,7 @@ def run(res, tier):
         std.run_lab(res, PID, tier, area="diskcrash", gens=["diskcrash"], gen_scenarios=gen_scenarios,
                     run_impl=c16.run_impl, to_case=c16.to_case, oracle=oracle,
                     corr_name="DiskcrashModel (writes, rebuild, hit) vs the running squid",
-                    n_quick=16, n_thorough=500, seed_salt=17,
+                    n_quick=14, n_thorough=500, seed_salt=17,
                     kind_fn=kind_fn, nontrivial_fn=lambda s, o: " | " in o)
     finally:
         c16._state.clear()
